@@ -565,6 +565,8 @@ DECODER_REJECTIONS = {
         (1, "fall-through of the dispatch over constant types: R02.K (C08's R08.4) shows every type the compiler emits has an arm"),
     ("code_data._flags_data::to_flags_data", "ValueError"):
         (2, "bits of co_flags without a name: C11's R11.1/R11.2 compare the flag table with CPython's for each version"),
+    ("code_data._line_mapping::items_to_mapping", "ValueError"):
+        (1, "a co_lnotab item that ends between two instructions (odd address increment): CPython's assembler writes address increments in whole code units (even numbers)"),
     ("code_data._line_mapping::LineMapping.pop_additional_line", "NotImplementedError"):
         (2, "line-table entries left at offsets that are not an instruction boundary: decided by C01's R01.A (known finding there)"),
 }
